@@ -276,7 +276,7 @@ func (vc *VC) tokCall(fc *FuncContract, fn *ssa.Function, c *ssa.CallCommon, arg
 					loc := vc.val(b).S
 					// captured by reference: the token belongs to the pointer stored in the cell
 					if al, ok := b.(*ssa.Alloc); ok {
-						if sv2, ok := vc.constCell(al); ok {
+						if sv2, ok := vc.constCellAt(al, mc); ok {
 							loc = vc.val(sv2).S
 						}
 					}
